@@ -204,6 +204,23 @@ def check_C02(ctx):
                 for bf in (1, 0):
                     lines.append(f"parse {ent['mode']} 1 {bf} {fr.hex()}")
                     meta.append((ent, lay, bf))
+    # variable-by-size groups: the repeat count is floor(remaining length / group size); a stray tail shorter than
+    # one group member changes nothing
+    for ent in ctx.reach:
+        if has_var_group(ent["defn"]) and not gen.is_cfgval(ent):
+            g = spec_group_size(ent["defn"])
+            if not g or g < 2:
+                continue
+            for _ in range(ctx.n(2, 10)):
+                lay = gen.layout(ctx.rng, ent, maxrep=ctx.rng.choice([1, 2, 3, 4]))
+                if lay is None:
+                    continue
+                for t in sorted({1, g // 2, (g + 1) // 2, g - 1}):
+                    if 0 < t < g:
+                        fr = gen.frame(ent["cls"], ent["id"], lay.payload + bytes(ctx.rng.getrandbits(8) for _ in range(t)))
+                        bf = ctx.rng.choice([0, 1])
+                        lines.append(f"parse {ent['mode']} 1 {bf} {fr.hex()}")
+                        meta.append((ent, lay, bf))
     py = do_corr(res, lines)
     samples = []
     errs = collections.defaultdict(lambda: collections.defaultdict(list))   # def -> bf -> [ok?]
@@ -290,6 +307,20 @@ def scaled_fields(defn):
 
 def has_var_group(defn):
     return any(isinstance(v, tuple) and v[0] == "None" for v in defn.values())
+
+
+def spec_group_size(defn):
+    """byte size of one member of the (top-level) variable-by-size group"""
+    for v in defn.values():
+        if isinstance(v, tuple) and v[0] == "None":
+            tot = 0
+            for x in v[1].values():
+                t = x[0] if isinstance(x, (tuple, list)) else x
+                if not isinstance(t, str) or t == "CH":
+                    return None
+                tot += gen.tsize(t)
+            return tot
+    return None
 
 
 def kw_constructible(ent):
@@ -2007,14 +2038,24 @@ def check_C15(ctx):
     ents = [e for e in ctx.reach if kw_constructible(e) and not gen.is_cfgval(e) and not own_name_clash(ctx.facts, e)]
     pool = bad_values(rng)
     per = ctx.n(3, 30)
+    # every distinct (kind, type[, scale]) gets every value of the pool at least once, on the first definition using it
+    todo = []
+    seen_slot = set()
+    for ent in ents:
+        for slot in attr_slots(ent):
+            key = (slot[1], slot[2], repr(slot[3]), min(slot[4], 1))
+            if key not in seen_slot:
+                seen_slot.add(key)
+                for v in pool:
+                    todo.append((ent, slot, v))
     for ent in ents:
         slots = attr_slots(ent)
-        if not slots:
-            continue
-        cs = gen.count_sources(ent["defn"])
-        for _ in range(per):
-            name, kind, ty, sc, depth = rng.choice(slots)
-            v = rng.choice(pool)
+        for _ in range(per if slots else 0):
+            todo.append((ent, rng.choice(slots), rng.choice(pool)))
+    for ent, slot, v in todo:
+        if True:
+            cs = gen.count_sources(ent["defn"])
+            name, kind, ty, sc, depth = slot
             kw = {}
             # make grouped attributes exist: set count sources to 1
             for c in cs:
@@ -2049,7 +2090,10 @@ def check_C15(ctx):
         try:
             m = UBXReader.parse(bytes.fromhex(field(a, "ser")), msgmode=ent["mode"], parsebitfield=True)
         except Exception as e:  # noqa
-            res.finding(f"class=accepted-but-unparseable;kind={kind};type={ty[0]}", f"value accepted, message does not parse back ({canon.excname(e)})", dict(op=l[:600]))
+            key = f"class=accepted-but-unparseable;kind={kind};type={ty[0]}"
+            if ty[0] == "C" and ty != "CH" and isinstance(v, (bytes, str)) and len(v if isinstance(v, bytes) else v.encode()) != gen.tsize(ty):
+                key = "class=C-wrong-length-accepted"
+            res.finding(key, f"value accepted, message does not parse back ({canon.excname(e)})", dict(op=l[:600]))
             continue
         L = spec_len(ent, kw)
         if L is not None and m.identity == ent["name"].split("-V")[0] if False else False:
